@@ -71,4 +71,20 @@ CHECKS = {
         must_hit=['asserted:user', 'asserted:join', 'asserted:err', 'totality-only', 'soup', 'path=bare', 'scheme=""', 'host=lookalike'],
         assumptions=['net/url parsing of the standard library defines what host/path a link has', 'strings.ToLower defines lower-casing'],
     ),
+    'C17': dict(
+        pkg='./c17', test='TestC17', level='exploration',
+        quick=dict(shards=4, checks=25000),
+        thorough=dict(shards=16, checks=400000, budget_s=3000),
+        level_text=('Model-based: every generated (code, text) is compared with a restated model of the prefix/suffix table and the catalogue '
+                    '(parsed from the text of errors.go only to know which names are documented); all catalogued names and 15 rows x 18 '
+                    'parameters are enumerated. Client-level delivery/migration scenarios run against the reference server (see DESIGN).'),
+        technique='model-based property testing (rapid) of the error mapping; scenario generation against a reference server for delivery and PHONE_MIGRATE',
+        rule=('cases = (code int32, text) with text from: table row x parameter {int64 range, negative, 0, huge, empty, abc, 1e3, arabic digit, spaces, +5, 0x10, %d}, '
+              'all catalogued names, near misses of rows, mutated names, arbitrary strings with % verbs. Non-trivial: text non-empty and one of '
+              '{row match, known name, unknown text}; distinct by hash of (code,text).'),
+        must_hit=['row:param-int', 'row:param-absent', 'row:param-non-numeric', 'row:param-out-of-range', 'row:param-negative', 'known-name',
+                  'unknown-text', 'unknown-text-with-percent'] + ['row%02d' % i for i in range(15)],
+        assumptions=['for a matching row whose parameter is not a decimal int the statement fixes only: no panic, Code kept; Message may be the text or the X form (accepted either way), "+5" likewise',
+                     'the catalogue of documented descriptions is read from errors.go as data'],
+    ),
 }
